@@ -4,10 +4,8 @@ import (
 	"go/ast"
 	"go/token"
 	"go/types"
-	"sort"
 	"strings"
 
-	"golang.org/x/tools/go/cfg"
 	"golang.org/x/tools/go/packages"
 )
 
@@ -523,10 +521,34 @@ func ruleEpcUpkeep(c *Ctx) {
 	}
 }
 
+// ruleExitQueueReset works on normal forms: a "raise" is an assignment M = x that stands under a condition whose cut
+// is x > M (any spelling, either branch), or the statement M = max(M, x) (which is what `if x > M { M = x }` with
+// nothing else in the branch is after load); a "count" is an increment of C under a condition whose cut is x == M.
 func ruleExitQueueReset(c *Ctx) {
 	n := 0
 	c.P.funcDecls(func(pk *packages.Package, fd *ast.FuncDecl) {
+		if fd.Body == nil {
+			return
+		}
 		info := pk.TypesInfo
+		parents := parentMap(fd.Body)
+		// does a fact say  a (op) b  for the given polynomials, up to the integer normal form of cuts?
+		says := func(f pathFact, a, b Poly, op token.Token) bool {
+			fop := f.be.Op
+			if f.neg {
+				fop = negOp[fop]
+			}
+			if _, isCmp := negOp[fop]; !isCmp {
+				return false
+			}
+			px, ok1 := exprPoly(info, f.be.X, nil, nil, 0)
+			py, ok2 := exprPoly(info, f.be.Y, nil, nil, 0)
+			if !ok1 || !ok2 {
+				return false
+			}
+			got, want := polyAdd(px, py, -1), polyAdd(a, b, -1)
+			return canonCut(got, fop) == canonCut(want, op) && cutSide(got, fop) == cutSide(want, op)
+		}
 		ast.Inspect(fd.Body, func(nd ast.Node) bool {
 			var body *ast.BlockStmt
 			switch x := nd.(type) {
@@ -537,79 +559,136 @@ func ruleExitQueueReset(c *Ctx) {
 			default:
 				return true
 			}
-			// find `x > M` branches assigning M = x
 			type raise struct {
-				ifs  *ast.IfStmt
 				m    types.Object
-				x    string
-				body *ast.BlockStmt
+				x    Poly
+				stmt ast.Stmt
+				bare bool // M = max(M, x): nothing else can happen on that path
+			}
+			type count struct {
+				c, m types.Object
+				stmt ast.Stmt
 			}
 			var raises []raise
-			var counts []struct {
-				c   types.Object
-				m   types.Object
-				pos token.Pos
-				ifs *ast.IfStmt
+			var counts []count
+			localOf := func(e ast.Expr) types.Object {
+				if id, ok := ast.Unparen(e).(*ast.Ident); ok {
+					if v, ok := info.ObjectOf(id).(*types.Var); ok && !v.IsField() {
+						return v
+					}
+				}
+				return nil
 			}
 			ast.Inspect(body, func(k ast.Node) bool {
 				if _, ok := k.(*ast.FuncLit); ok {
 					return false
 				}
-				ifs, ok := k.(*ast.IfStmt)
-				if !ok {
-					return true
-				}
-				be, ok := ast.Unparen(ifs.Cond).(*ast.BinaryExpr)
-				if !ok {
-					return true
-				}
-				mid, ok := ast.Unparen(be.Y).(*ast.Ident)
-				if !ok {
-					return true
-				}
-				mobj := info.Uses[mid]
-				if mobj == nil {
-					return true
-				}
-				xs := types.ExprString(be.X)
-				if be.Op == token.GTR {
-					// body assigns M = x
-					for _, st := range ifs.Body.List {
-						if as, ok := st.(*ast.AssignStmt); ok && len(as.Lhs) == 1 && len(as.Rhs) == 1 && as.Tok == token.ASSIGN {
-							if lid, ok := as.Lhs[0].(*ast.Ident); ok && info.Uses[lid] == mobj && types.ExprString(as.Rhs[0]) == xs {
-								raises = append(raises, raise{ifs, mobj, xs, ifs.Body})
+				switch st := k.(type) {
+				case *ast.AssignStmt:
+					if len(st.Lhs) != 1 || len(st.Rhs) != 1 {
+						return true
+					}
+					m := localOf(st.Lhs[0])
+					if m == nil {
+						return true
+					}
+					if st.Tok == token.ASSIGN {
+						// M = max(M, x)
+						if call, ok := ast.Unparen(st.Rhs[0]).(*ast.CallExpr); ok && len(call.Args) == 2 {
+							if fid, ok := call.Fun.(*ast.Ident); ok && fid.Name == "max" {
+								if _, isB := info.ObjectOf(fid).(*types.Builtin); isB {
+									for i := 0; i < 2; i++ {
+										if localOf(call.Args[i]) == m {
+											if px, ok := exprPoly(info, call.Args[1-i], nil, nil, 0); ok {
+												raises = append(raises, raise{m, px, st, true})
+											}
+										}
+									}
+									return true
+								}
+							}
+						}
+						// M = x under x > M
+						px, ok := exprPoly(info, st.Rhs[0], nil, nil, 0)
+						if !ok {
+							return true
+						}
+						pm := polyAtom(m.Name())
+						for _, f := range pathFactsAt(parents, st) {
+							if f.be.Pos() < body.Pos() {
+								continue // a condition around the loop
+							}
+							if says(f, px, pm, token.GTR) {
+								raises = append(raises, raise{m, px, st, false})
+								break
 							}
 						}
 					}
-				}
-				if be.Op == token.EQL {
-					for _, st := range ifs.Body.List {
-						if inc, ok := st.(*ast.IncDecStmt); ok && inc.Tok == token.INC {
-							if cid, ok := inc.X.(*ast.Ident); ok {
-								counts = append(counts, struct {
-									c   types.Object
-									m   types.Object
-									pos token.Pos
-									ifs *ast.IfStmt
-								}{info.Uses[cid], mobj, inc.Pos(), ifs})
+					if st.Tok == token.ADD_ASSIGN {
+						if tv, ok := info.Types[st.Rhs[0]]; ok && tv.Value != nil {
+							if v, ok := constantInt(tv); ok && v == 1 {
+								for _, f := range pathFactsAt(parents, st) {
+									if f.be.Pos() < body.Pos() {
+										continue
+									}
+									for _, side := range []ast.Expr{f.be.X, f.be.Y} {
+										if mo := localOf(side); mo != nil && mo != m {
+											counts = append(counts, count{m, mo, st})
+										}
+									}
+								}
+							}
+						}
+					}
+				case *ast.IncDecStmt:
+					if st.Tok != token.INC {
+						return true
+					}
+					cobj := localOf(st.X)
+					if cobj == nil {
+						return true
+					}
+					for _, f := range pathFactsAt(parents, st) {
+						if f.be.Pos() < body.Pos() {
+							continue
+						}
+						for _, side := range []ast.Expr{f.be.X, f.be.Y} {
+							if mo := localOf(side); mo != nil && mo != cobj {
+								counts = append(counts, count{cobj, mo, st})
 							}
 						}
 					}
 				}
 				return true
 			})
+			seen := map[string]bool{}
 			for _, r := range raises {
 				for _, ct := range counts {
 					if ct.m != r.m {
 						continue
 					}
-					n++
+					// the count stands under x == M for the same x
+					isEq := false
+					for _, f := range pathFactsAt(parents, ct.stmt) {
+						if says(f, r.x, polyAtom(r.m.Name()), token.EQL) {
+							isEq = true
+						}
+					}
+					if !isEq {
+						continue
+					}
 					key := pkgShort(pk.Types) + "." + funcName(fd) + ":" + r.m.Name() + "/" + ct.c.Name()
+					if seen[key] {
+						continue
+					}
+					seen[key] = true
+					n++
+					// what the raising path does to C: a constant assigned in the same block as the raise
 					reset := false
 					resetVal := int64(-1)
-					for _, st := range r.body.List {
-						if as, ok := st.(*ast.AssignStmt); ok && len(as.Lhs) == 1 && len(as.Rhs) == 1 {
-							if lid, ok := as.Lhs[0].(*ast.Ident); ok && info.Uses[lid] == ct.c {
+					if blk, ok := parents[r.stmt].(*ast.BlockStmt); ok && !r.bare {
+						for _, st := range blk.List {
+							if as, ok := st.(*ast.AssignStmt); ok && len(as.Lhs) == 1 && len(as.Rhs) == 1 && localOf(as.Lhs[0]) == ct.c {
 								if tv := info.Types[as.Rhs[0]]; tv.Value != nil {
 									if v, ok := constantInt(tv); ok {
 										resetVal = v
@@ -620,33 +699,35 @@ func ruleExitQueueReset(c *Ctx) {
 						}
 					}
 					// after the element that raised the maximum has been handled, the count must be 1 (that element):
-					// either reset to 1 where the `== max` increment is not executed for this element (it is the other arm
-					// of the same if/else, or came earlier), or reset to 0 where the increment follows in the same iteration
-					incFollows := false
-					isElseArm := false
-					for e := ct.ifs.Else; e != nil; {
-						if ei, ok := e.(*ast.IfStmt); ok {
-							if ei == r.ifs {
-								isElseArm = true
+					// reset to 0 where the `== max` increment still runs for this element later in the iteration, to 1
+					// where it does not (it sits in the other arm of a branch around the raise, or came earlier)
+					exclusive := false
+					for p, child := parents[r.stmt], ast.Node(r.stmt); p != nil && p != ast.Node(body); child, p = p, parents[p] {
+						if ifs, ok := p.(*ast.IfStmt); ok && child == ast.Node(ifs.Body) && ifs.Else != nil {
+							if ifs.Else.Pos() <= ct.stmt.Pos() && ct.stmt.End() <= ifs.Else.End() {
+								exclusive = true
 							}
-							e = ei.Else
-						} else {
-							break
 						}
 					}
-					if !isElseArm && ct.ifs.Pos() > r.ifs.End() {
-						incFollows = true
+					for p, child := parents[ct.stmt], ast.Node(ct.stmt); p != nil && p != ast.Node(body); child, p = p, parents[p] {
+						if ifs, ok := p.(*ast.IfStmt); ok && child == ast.Node(ifs.Body) && ifs.Else != nil {
+							if ifs.Else.Pos() <= r.stmt.Pos() && r.stmt.End() <= ifs.Else.End() {
+								exclusive = true
+							}
+						}
 					}
+					incFollows := !exclusive && ct.stmt.Pos() > r.stmt.End()
 					wantReset := int64(1)
 					if incFollows {
 						wantReset = 0
 					}
-					if reset && resetVal >= 0 && resetVal != wantReset {
-						c.bad(key, r.ifs.Pos(), "raising %s sets %s = %d, but the element that raised it is %s afterwards, so the count of the new maximum starts at %d instead of 1 (one exit too many, or too few, is scheduled into a full epoch)", r.m.Name(), ct.c.Name(), resetVal, map[bool]string{true: "counted by the `==` test that follows", false: "not counted again in this iteration"}[incFollows], resetVal+map[bool]int64{true: 1, false: 0}[incFollows])
-					} else if reset {
-						c.ok(key, r.ifs.Pos(), "raising %s re-initialises %s", r.m.Name(), ct.c.Name())
-					} else {
-						c.bad(key, r.ifs.Pos(), "%s is raised to a new maximum without re-initialising %s, which then also counts the elements of the earlier maximum (exit-queue churn over-counted when exits are queued over several epochs: ejections are pushed an epoch late)", r.m.Name(), ct.c.Name())
+					switch {
+					case reset && resetVal >= 0 && resetVal != wantReset:
+						c.bad(key, r.stmt.Pos(), "raising %s sets %s = %d, but the element that raised it is %s afterwards, so the count of the new maximum starts at %d instead of 1 (one exit too many, or too few, is scheduled into a full epoch)", r.m.Name(), ct.c.Name(), resetVal, map[bool]string{true: "counted by the `==` test that follows", false: "not counted again in this iteration"}[incFollows], resetVal+map[bool]int64{true: 1, false: 0}[incFollows])
+					case reset:
+						c.ok(key, r.stmt.Pos(), "raising %s re-initialises %s", r.m.Name(), ct.c.Name())
+					default:
+						c.bad(key, r.stmt.Pos(), "%s is raised to a new maximum without re-initialising %s, which then also counts the elements of the earlier maximum (exit-queue churn over-counted when exits are queued over several epochs: ejections are pushed an epoch late)", r.m.Name(), ct.c.Name())
 					}
 				}
 			}
@@ -654,344 +735,6 @@ func ruleExitQueueReset(c *Ctx) {
 		})
 	})
 	c.stat("running_max_count_loops", n)
-}
-
-func ruleGenesisInit(c *Ctx) {
-	pk, fd := c.P.mustFunc("eth2/beacon/phase0", "GenesisFromEth1")
-	info := pk.TypesInfo
-	params := map[string]types.Object{}
-	for _, f := range fd.Type.Params.List {
-		for _, n := range f.Names {
-			params[n.Name] = info.Defs[n]
-		}
-	}
-	if len(params) != 5 {
-		anchorFail("GenesisFromEth1 signature changed")
-	}
-	pnames := []string{}
-	for _, f := range fd.Type.Params.List {
-		for _, n := range f.Names {
-			pnames = append(pnames, n.Name)
-		}
-	}
-	pHash, pTime, pDeps, pIgnore := pnames[1], pnames[2], pnames[3], pnames[4]
-	g := cfg.New(fd.Body, func(*ast.CallExpr) bool { return true })
-	succ := []*cfg.Block{}
-	for _, b := range g.Blocks {
-		if !b.Live || len(b.Nodes) == 0 {
-			continue
-		}
-		if r, ok := b.Nodes[len(b.Nodes)-1].(*ast.ReturnStmt); ok && len(r.Results) == 3 {
-			if id, ok := ast.Unparen(r.Results[2]).(*ast.Ident); ok && id.Name == "nil" {
-				succ = append(succ, b)
-			}
-		}
-	}
-	if len(succ) == 0 {
-		anchorFail("GenesisFromEth1: no success return")
-	}
-	calls := cfgCalls(info, g, func(q string, f *types.Func) bool { return true })
-	find := func(name string) []callLoc {
-		var out []callLoc
-		for q, l := range calls {
-			if q == name || strings.HasSuffix(q, "."+name) {
-				out = append(out, l...)
-			}
-		}
-		sort.Slice(out, func(i, j int) bool { return out[i].call.Pos() < out[j].call.Pos() })
-		return out
-	}
-	must := func(name string, check func(call *ast.CallExpr) string) {
-		key := "GenesisFromEth1." + name
-		l := find(name)
-		if len(l) == 0 {
-			c.bad(key, fd.Pos(), "genesis never calls %s", name)
-			return
-		}
-		if !cuts(g, l, succ) {
-			c.bad(key, l[0].call.Pos(), "a success path of genesis skips %s", name)
-			return
-		}
-		if check != nil {
-			if msg := check(l[0].call); msg != "" {
-				c.bad(key, l[0].call.Pos(), "%s", msg)
-				return
-			}
-		}
-		c.ok(key, l[0].call.Pos(), "on every success path with the spec's arguments")
-	}
-	defs := singleDefs(info, fd.Body)
-	resolve := func(e ast.Expr) ast.Expr {
-		if id, ok := ast.Unparen(e).(*ast.Ident); ok {
-			if d, ok := defs[info.Uses[id]]; ok && d.pos == 0 {
-				return d.rhs
-			}
-		}
-		return e
-	}
-	litOf := func(e ast.Expr) *ast.CompositeLit {
-		e = ast.Unparen(resolve(e))
-		if u, ok := e.(*ast.UnaryExpr); ok {
-			e = ast.Unparen(u.X)
-		}
-		cl, _ := e.(*ast.CompositeLit)
-		return cl
-	}
-	kv := func(cl *ast.CompositeLit) map[string]string {
-		m := map[string]string{}
-		if cl == nil {
-			return m
-		}
-		for _, el := range cl.Elts {
-			if p, ok := el.(*ast.KeyValueExpr); ok {
-				m[p.Key.(*ast.Ident).Name] = types.ExprString(p.Value)
-			}
-		}
-		return m
-	}
-	must("SetGenesisTime", func(call *ast.CallExpr) string {
-		s := types.ExprString(call.Args[0])
-		if !(strings.Contains(s, pTime) && strings.Contains(s, "GENESIS_DELAY") && strings.Contains(s, "+")) {
-			return "genesis time is " + s + ", the spec sets eth1_timestamp + GENESIS_DELAY"
-		}
-		return ""
-	})
-	must("SetFork", func(call *ast.CallExpr) string {
-		m := kv(litOf(call.Args[0]))
-		if !strings.HasSuffix(m["PreviousVersion"], "GENESIS_FORK_VERSION") || !strings.HasSuffix(m["CurrentVersion"], "GENESIS_FORK_VERSION") || !strings.HasSuffix(m["Epoch"], "GENESIS_EPOCH") {
-			return "genesis fork is not {GENESIS_FORK_VERSION, GENESIS_FORK_VERSION, GENESIS_EPOCH}"
-		}
-		return ""
-	})
-	must("SetEth1Data", func(call *ast.CallExpr) string {
-		m := kv(litOf(call.Args[0]))
-		if !strings.Contains(m["DepositCount"], "len("+pDeps+")") {
-			return "eth1 deposit count is " + m["DepositCount"] + ", the spec sets len(deposits)"
-		}
-		if m["BlockHash"] != pHash {
-			return "eth1 block hash is " + m["BlockHash"]
-		}
-		return ""
-	})
-	must("SetLatestBlockHeader", func(call *ast.CallExpr) string {
-		m := kv(litOf(call.Args[0]))
-		br := m["BodyRoot"]
-		if !strings.Contains(br, "HashTreeRoot") {
-			return "latest block header body root is " + br + ", want the root of an empty block body"
-		}
-		// receiver must be an empty BeaconBlockBody literal of phase0
-		var base ast.Expr
-		ast.Inspect(litOf(call.Args[0]), func(n ast.Node) bool {
-			if call2, ok := n.(*ast.CallExpr); ok {
-				if sel, ok := call2.Fun.(*ast.SelectorExpr); ok && sel.Sel.Name == "HashTreeRoot" {
-					base = sel.X
-				}
-			}
-			return true
-		})
-		cl := litOf(base)
-		if cl == nil || len(cl.Elts) != 0 {
-			return "body root is not computed over an empty BeaconBlockBody{}"
-		}
-		if nt := namedOf(info.TypeOf(cl)); nt == nil || nt.Obj().Name() != "BeaconBlockBody" || nt.Obj().Pkg() != pk.Types {
-			return "body root is computed over a body of another fork"
-		}
-		return ""
-	})
-	must("SeedRandao", func(call *ast.CallExpr) string {
-		if types.ExprString(call.Args[len(call.Args)-1]) != pHash {
-			return "randao is seeded with " + types.ExprString(call.Args[len(call.Args)-1]) + ", want the eth1 block hash"
-		}
-		return ""
-	})
-	must("SetGenesisValidatorsRoot", func(call *ast.CallExpr) string {
-		if !strings.Contains(types.ExprString(call.Args[0]), "HashTreeRoot") {
-			return "genesis validators root is not the hash-tree-root of the registry"
-		}
-		return ""
-	})
-	must("LoadShuffling", nil)
-	must("LoadProposers", nil)
-	// deposit loop order: Append -> updateDepTreeRoot -> ProcessDeposit, with the ignore flag passed through
-	var depLoop *ast.RangeStmt
-	ast.Inspect(fd.Body, func(n ast.Node) bool {
-		if rs, ok := n.(*ast.RangeStmt); ok && types.ExprString(rs.X) == pDeps {
-			depLoop = rs
-		}
-		return true
-	})
-	if depLoop == nil {
-		c.bad("GenesisFromEth1.deposit-loop", fd.Pos(), "no loop over the deposits")
-	} else {
-		var app, upd, proc token.Pos
-		var procCall *ast.CallExpr
-		ast.Inspect(depLoop.Body, func(n ast.Node) bool {
-			if call, ok := n.(*ast.CallExpr); ok {
-				// the "refresh eth1_data.deposit_root" step: whatever stores the eth1 data — directly, through a local
-				// closure or through a function of the package
-				if upd == token.NoPos && reachesCallNamed(c.P, pk, fd, call, "SetEth1Data", 0) {
-					upd = call.Pos()
-				}
-				switch calleeLabel(info, call) {
-				case "Append":
-					app = call.Pos()
-				case "ProcessDeposit":
-					proc = call.Pos()
-					procCall = call
-				}
-			}
-			return true
-		})
-		key := "GenesisFromEth1.deposit-loop"
-		switch {
-		case app == 0 || upd == 0 || proc == 0:
-			c.bad(key, depLoop.Pos(), "deposit loop lacks one of: append deposit-data root, update eth1 deposit root, ProcessDeposit")
-		case !(app < upd && upd < proc):
-			c.bad(key, depLoop.Pos(), "per deposit the spec updates the incremental deposit-tree root before processing the deposit (append, update root, process)")
-		case types.ExprString(procCall.Args[len(procCall.Args)-1]) != pIgnore:
-			c.bad(key, procCall.Pos(), "ProcessDeposit is called with %s instead of the caller's ignoreSignaturesAndProofs", types.ExprString(procCall.Args[len(procCall.Args)-1]))
-		default:
-			c.ok(key, depLoop.Pos(), "append -> update root -> ProcessDeposit(..., %s)", pIgnore)
-		}
-	}
-	// activation loop
-	actOK, capOK, eqOK := false, false, false
-	var setEff token.Pos
-	ast.Inspect(fd.Body, func(n ast.Node) bool {
-		switch x := n.(type) {
-		case *ast.AssignStmt:
-			if len(x.Rhs) == 1 {
-				s := types.ExprString(x.Rhs[0])
-				if strings.Contains(s, "%") && strings.Contains(s, "EFFECTIVE_BALANCE_INCREMENT") && strings.Contains(s, "-") {
-					actOK = true
-				}
-			}
-		case *ast.IfStmt:
-			s := types.ExprString(x.Cond)
-			if strings.Contains(s, "> spec.MAX_EFFECTIVE_BALANCE") {
-				capOK = true
-			}
-			if strings.Contains(s, "== spec.MAX_EFFECTIVE_BALANCE") {
-				// body must set both activation epochs to GENESIS_EPOCH
-				cnt := 0
-				ast.Inspect(x.Body, func(m ast.Node) bool {
-					if call, ok := m.(*ast.CallExpr); ok {
-						nme := calleeLabel(info, call)
-						if (nme == "SetActivationEligibilityEpoch" || nme == "SetActivationEpoch") && len(call.Args) == 1 && strings.HasSuffix(types.ExprString(call.Args[0]), "GENESIS_EPOCH") {
-							cnt++
-						}
-					}
-					return true
-				})
-				if cnt == 2 {
-					eqOK = true
-				}
-			}
-		case *ast.CallExpr:
-			if calleeLabel(info, x) == "SetEffectiveBalance" {
-				setEff = x.Pos()
-			}
-		}
-		return true
-	})
-	// SetEffectiveBalance must run for every validator: its statement sits directly in the loop body, not under the
-	// activation condition
-	uncond := false
-	ast.Inspect(fd.Body, func(n ast.Node) bool {
-		var body *ast.BlockStmt
-		switch x := n.(type) {
-		case *ast.ForStmt:
-			body = x.Body
-		case *ast.RangeStmt:
-			body = x.Body
-		default:
-			return true
-		}
-		for _, st := range body.List {
-			found := false
-			if ifs, ok := st.(*ast.IfStmt); ok && ifs.Init != nil {
-				ast.Inspect(ifs.Init, func(m ast.Node) bool {
-					if call, ok := m.(*ast.CallExpr); ok && calleeLabel(info, call) == "SetEffectiveBalance" {
-						found = true
-					}
-					return true
-				})
-			}
-			if es, ok := st.(*ast.ExprStmt); ok {
-				if call, ok := es.X.(*ast.CallExpr); ok && calleeLabel(info, call) == "SetEffectiveBalance" {
-					found = true
-				}
-			}
-			if found {
-				uncond = true
-			}
-		}
-		return true
-	})
-	if setEff != 0 && !uncond {
-		c.bad("GenesisFromEth1.activation", setEff, "the effective balance is only recomputed for some validators (the call is nested under a condition); the spec recomputes it from the final balance for every validator before testing for activation")
-	} else if actOK && capOK && eqOK && setEff != 0 {
-		c.ok("GenesisFromEth1.activation", setEff, "effective balance = min(balance - balance mod INCREMENT, MAX); activated at genesis iff == MAX_EFFECTIVE_BALANCE")
-	} else {
-		c.bad("GenesisFromEth1.activation", fd.Pos(), "genesis activation loop deviates (rounding %v, cap %v, activation-at-max %v, SetEffectiveBalance %v)", actOK, capOK, eqOK, setEff != 0)
-	}
-	// validators root after activation: SetGenesisValidatorsRoot positioned after SetEffectiveBalance
-	if l := find("SetGenesisValidatorsRoot"); len(l) > 0 && setEff != 0 {
-		if l[0].call.Pos() > setEff {
-			c.ok("GenesisFromEth1.root-after-activation", l[0].call.Pos(), "validators root taken after the activation loop")
-		} else {
-			c.bad("GenesisFromEth1.root-after-activation", l[0].call.Pos(), "genesis validators root is taken before activations are applied")
-		}
-	}
-	// who may skip signatures/proofs
-	allowed := map[string]bool{"KickStartState": true, "KickStartStateWithSignatures": true}
-	c.P.funcDecls(func(p2 *packages.Package, f2 *ast.FuncDecl) {
-		ast.Inspect(f2.Body, func(n ast.Node) bool {
-			call, ok := n.(*ast.CallExpr)
-			if !ok {
-				return true
-			}
-			f := calleeFunc(p2.TypesInfo, call)
-			if f == nil || (f.Name() != "GenesisFromEth1" && f.Name() != "ProcessDeposit") || !isZrnt(f) || len(call.Args) == 0 {
-				return true
-			}
-			last := ast.Unparen(call.Args[len(call.Args)-1])
-			key := pkgShort(p2.Types) + "." + funcName(f2) + "->" + f.Name() + ".ignoreSignaturesAndProofs"
-			if id, ok := last.(*ast.Ident); ok && id.Name == "true" {
-				if allowed[f2.Name.Name] || strings.HasPrefix(p2.PkgPath, modPath+"/tests") {
-					c.ok(key, call.Pos(), "kick-start helper (documented: builds a state without eth1 deposits)")
-				} else {
-					c.bad(key, call.Pos(), "%s asks %s to skip deposit signature and Merkle-proof checks", f2.Name.Name, f.Name())
-				}
-			} else if id, ok := last.(*ast.Ident); ok && id.Name == "false" {
-				c.ok(key, call.Pos(), "checks enabled")
-			} else {
-				c.ok(key, call.Pos(), "flag passed through from the caller (%s)", types.ExprString(last))
-			}
-			return true
-		})
-	})
-	// IsValidGenesisState
-	pk, fd = c.P.mustFunc("eth2/beacon/phase0", "IsValidGenesisState")
-	info = pk.TypesInfo
-	t1, t2 := false, false
-	ast.Inspect(fd.Body, func(n ast.Node) bool {
-		if be, ok := n.(*ast.BinaryExpr); ok {
-			s := types.ExprString(be)
-			if be.Op == token.LSS && strings.HasSuffix(types.ExprString(be.Y), "MIN_GENESIS_TIME") {
-				t1 = true
-			}
-			if be.Op == token.GEQ && strings.Contains(s, "MIN_GENESIS_ACTIVE_VALIDATOR_COUNT") {
-				t2 = true
-			}
-		}
-		return true
-	})
-	if t1 && t2 {
-		c.ok("IsValidGenesisState", fd.Pos(), "genesis_time >= MIN_GENESIS_TIME and active >= MIN_GENESIS_ACTIVE_VALIDATOR_COUNT")
-	} else {
-		c.bad("IsValidGenesisState", fd.Pos(), "validity predicate does not compare with MIN_GENESIS_TIME (<) and MIN_GENESIS_ACTIVE_VALIDATOR_COUNT (>=)")
-	}
 }
 
 func init() {
